@@ -275,6 +275,21 @@ func runC03Req(c *Ctx, wl *walkLayers) {
 			}
 			a.n++
 			c.Sites++
+			// the value whose emptiness decides `required` is the declared field / element itself: a non-nil
+			// pointer is a supplied value whatever it points at (pointers to scalars are in the property's
+			// quantifier), so the test must not be made on something reached through Elem() from the value
+			// that was read out of the object
+			if valKey != "" {
+				tail := valKey
+				for _, cut := range []string{".Field(", ".Index(", ".MapIndex(", ".Value()"} {
+					if i := strings.LastIndex(tail, cut); i >= 0 {
+						tail = tail[i:]
+					}
+				}
+				if tail != valKey && strings.Contains(tail, ".Elem()") {
+					a.bad = append(a.bad, "required is decided by the emptiness of what the field's value POINTS at ("+shorten(valKey, 90)+"): a non-nil pointer to a zero scalar (a proto3 optional field set to \"\"/0/false) is reported as missing although a value was supplied")
+				}
+			}
 			satisfied := provedNonEmpty && !provedEmpty
 			if satisfied {
 				a.sawClean = true
